@@ -70,9 +70,65 @@ func runC08Git(c *Ctx) {
 		paths = append(paths, p)
 	}
 	w.MustGit(u1, "add", "-A")
+	// content committed at tracked paths without going through the filter
+	// (added before the path was tracked, or by a tool that bypasses filters):
+	// smudging it passes it through unchanged, whatever its size
+	raw := map[string][]byte{}
+	if t.Bool(1, 2, "raw-blobs-at-tracked-paths") {
+		nr := 1 + t.Choose(3, "n-raw")
+		for i := 0; i < nr; i++ {
+			data, _ := genPayload(t, 20+i)
+			if t.Bool(1, 3, "raw-starts-like-a-pointer") {
+				data = append([]byte(PointerText(Oid([]byte("lookalike")), 12345)), data...)
+			}
+			if len(data) == 0 {
+				data = []byte("raw\n")
+			}
+			if sim.RefPointer(data) != sim.PtrNo {
+				data = append(data, []byte("not a pointer after all\n")...)
+			}
+			p := fmt.Sprintf("raw%d.bin", i)
+			id, code := w.Run(u1, &RunOpts{Stdin: data, Quiet: true}, "git", "hash-object", "-w", "--stdin", "--no-filters")
+			if code != 0 {
+				panic(sim.HarnessError{Msg: "hash-object failed"})
+			}
+			w.MustGit(u1, "update-index", "--add", "--cacheinfo", "100644,"+strings.TrimSpace(id)+","+p)
+			raw[p] = data
+		}
+	}
 	w.MustGit(u1, "commit", "-q", "-m", "files")
 	if _, code := w.Git(u1, "push", "-q", "origin", "main"); code != 0 {
 		panic(sim.HarnessError{Msg: "set-up push failed: " + w.lastOutput()})
+	}
+	if len(raw) > 0 {
+		// a clone with smudging enabled: the raw blobs come out as they went in
+		u3 := filepath.Join(w.Root, "u3")
+		if out, code := w.Git(w.Root, "clone", "-q", "-c", "lfs.url="+w.LFSURL(), remote, u3); code != 0 {
+			// objects of the pointer files are only in u1's store: a failing smudge of those is not this check's business
+			_ = out
+		}
+		var rps []string
+		for p := range raw {
+			rps = append(rps, p)
+		}
+		sort.Strings(rps)
+		for _, p := range rps {
+			b, err := os.ReadFile(filepath.Join(u3, p))
+			if err != nil {
+				continue
+			}
+			if string(b) != string(raw[p]) {
+				c.Violation("smudge-changed-non-pointer", "checkout (one-shot filters: %v) of %s, a blob of %d bytes that is not a pointer, wrote %d bytes (sha %s instead of %s)", oneshot, p, len(raw[p]), len(b), Oid(b)[:12], Oid(raw[p])[:12])
+				return
+			}
+			c.Probe("raw-blob-passed-through")
+		}
+		// leave the raw files out of the re-add part
+		for _, p := range rps {
+			w.Git(u1, "rm", "-q", "--cached", p)
+		}
+		w.Git(u1, "commit", "-q", "-m", "raw files removed")
+		w.Git(u1, "push", "-q", "origin", "main")
 	}
 	u2 := filepath.Join(w.Root, "u2")
 	if out, code := w.GitEnv(w.Root, []string{"GIT_LFS_SKIP_SMUDGE=1"}, "clone", "-q", "-c", "lfs.url="+w.LFSURL(), remote, u2); code != 0 {
